@@ -79,6 +79,8 @@ def build_unit_text(unit, src):
         val = src.grab(rx, 1, scope)
         val, _ = L.lower(val, [])
         out.append('#define %s (%s)\n' % (macro, val.strip()))
+    for rx in getattr(unit, 'facts', []):
+        src.grab(rx, 0)            # static fact: must match exactly once, else extraction break
     out.append(unit.prelude)
     # prototypes
     for f in unit.fns:
